@@ -164,26 +164,38 @@ def _gen_eos(rnd):
 
 @contract('backends.libwayland_debug_output.parse.argument_list_strs')
 def _(c):
-    """cutting never fails and always terminates; the items are what lies between the separators that are outside quoted text
-    (the exact positions are only checked through the bounded comparison on parse.message)"""
+    """String arguments containing commas, brackets, parentheses or spaces never split or merge neighbouring arguments: for text without
+    backslashes the items are exactly the pieces between the `, ` separators that lie outside quoted text - joined by `, ` they give the
+    text back (nothing lost, nothing added), every cut is at such a separator, and no item contains one."""
     c.prop('C01')
     c.types(args_str='str', result='List(str)').returns('List(str)')
+    c.requires('all(args_str[k] != "\\\\" for k in range(0, len(args_str)))', 'no_backslash')
     c.ensures('fresh(result)')
-    c.ensures('len(args_str) > 0 or len(result) == 0', 'nothing_from_nothing')
-    c.ensures('all(len(result[k]) <= len(args_str) for k in range(0, len(result)))', 'items_are_not_longer_than_the_text')
+    c.ensures('len(result) > 0 or len(args_str) == 0', 'nothing_only_from_nothing')
+    c.ensures('all(result[k] == args_str[off(result, k):off(result, k) + len(result[k])] for k in range(0, len(result)))', 'items_are_the_text_between_the_cuts')
+    c.ensures('all(sep(args_str, off(result, k) - 2) for k in range(1, len(result)))', 'every_cut_is_a_separator_outside_quotes')
+    c.ensures('len(result) == 0 or off(result, len(result)) - 2 == len(args_str) or (off(result, len(result)) == len(args_str) and sep(args_str, len(args_str) - 2))',
+              'the_items_cover_the_whole_text')
+    c.ensures('all(all(not sep(args_str, p) for p in range(off(result, k), off(result, k) + len(result[k]) - 1)) for k in range(0, len(result)))',
+              'no_item_contains_a_separator_outside_quotes')
     lp = c.loop(0)
-    lp.invariant('0 <= i and 0 <= start and start <= i + 1', 'bounds')
-    lp.invariant('all(len(result[k]) <= len(args_str) for k in range(0, len(result)))', 'items_so_far')
-    lp.invariant('i > 0 or len(result) == 0', 'nothing_yet')
-    lp.invariant('len(args_str) > 0 or (i == 0 and start == 0)', 'empty_text_is_not_entered')
-    lp.modifies('list(result)')
+    lp.invariant('0 <= i and 0 <= start and start <= len(args_str) and start <= i + 1', 'bounds')
+    lp.invariant('start == off(result, len(result))', 'next_item_starts_here')
+    lp.invariant('all(result[k] == args_str[off(result, k):off(result, k) + len(result[k])] for k in range(0, len(result)))', 'items_so_far')
+    lp.invariant('all(sep(args_str, off(result, k) - 2) for k in range(1, len(result)))', 'cuts_so_far')
+    lp.invariant('start == 0 or sep(args_str, start - 2)', 'last_cut')
+    lp.invariant('(start == 0) == (len(result) == 0)', 'first_item')
+    lp.invariant('i > len(args_str) or not inq(args_str, i)', 'outside_quotes')
+    lp.invariant('all(not sep(args_str, p) for p in range(start, i))', 'no_separator_in_the_current_item')
+    lp.invariant('all(all(not sep(args_str, p) for p in range(off(result, k), off(result, k) + len(result[k]) - 1)) for k in range(0, len(result)))', 'no_separator_inside_items_so_far')
     lp.decreases('len(args_str) + 2 - i')
+    lp.modifies('list(result)')
     c.modifies('new')
-    c.native_gen(lambda rnd: (''.join(rnd.choice(['a', '"', ', ', ',', ' ', '\\', 'b)']) for _ in range(rnd.randint(0, 10))),))
+    c.native_gen(lambda rnd: (''.join(rnd.choice(['a', '"', ', ', ',', ' ', 'b)', '"x, y"', 'nil']) for _ in range(rnd.randint(0, 10))),))
 
 
 from pyvc import contracts as _c
 _c.PROP_LEVEL['C01'] = 'other'
-_c.PROP_NOTES['C01'] = ('Discharged obligations only for the two string loops (end_of_str, argument_list_strs). The regular-expression decoder parse.message is a bounded stand-in: '
+_c.PROP_NOTES['C01'] = ('Discharged obligations for the two string loops: end_of_str (next quote) and argument_list_strs (full functional contract: the items are exactly the pieces between the separators outside quoted text). The regular-expression decoder parse.message is a bounded stand-in: '
                         'generated messages rendered like wl_closure_print in both dialects, decoded by the real function and compared field by field; non-message lines must raise. '
                         'Not proof; the bound is the number of generated lines reported under native_differential_search.')
